@@ -288,6 +288,15 @@ fn exec(desc: &Value, tr: &mut Tracer) -> anyhow::Result<()> {
             o.insert("msg".into(), json!(errtxt(e)));
         }
         tr.emit(rec);
+        if std::env::var("AVH_CONSIST_F64").is_ok() {
+            // debug aid (stderr only, never part of the trace): the unrounded numbers of the step
+            eprintln!("step {} {} req={:e} acc={} out_max={:e} reves={:e}", k + 1, cls, req, r.is_ok(),
+                      c.state.pwr_out_max.value, c.state.pwr_out_max_reves.value);
+            for (i, l) in c.loco_vec.iter().enumerate() {
+                eprintln!("  unit {} {} pwr_out={:e} pwr_out_max={:e} diff={:e}", i, kind_of(l), l.state.pwr_out.value,
+                          l.state.pwr_out_max.value, l.state.pwr_out.value - l.state.pwr_out_max.value);
+            }
+        }
         if r.is_ok() {
             accepted.push((req, dts[k]));
             c.step();
